@@ -14,6 +14,7 @@ from . import values as _v
 
 
 def install(E):
+    from . import models_bv, models_iso      # noqa: register their models
     E.models.update(MODELS)
     E.method_models.update(METHOD_MODELS)
 
@@ -372,6 +373,8 @@ def m_str(E, a, kw):
         return v
     if isinstance(v, VInt):
         return str_of_int(E, v.t)
+    if isinstance(v, VBV):
+        return format_value(E, v, lift(''))
     if isinstance(v, VBool):
         raise Unsupported('str(bool)')
     if isinstance(v, VOpaque) and v.sort_name == 'datetime':
@@ -686,18 +689,33 @@ def list_comp(E, e, fr, lazy=False):
 
     c = sq.clen()
     if c is not None:
-        out = []
+        out = []          # (selector Bool | True, element)
+        symbolic = False
         for k in range(c):
             E.assign(g.target, elem(z3.IntVal(k)), fr)
-            ok = True
+            sel = z3.BoolVal(True)
             for cond in g.ifs:
-                if not E.branch(E.truth(E.eval(cond, fr))):
-                    ok = False
-                    break
-            if ok:
-                out.append(E.eval(e.elt, fr))
+                sel = z3.simplify(z3.And(sel, E.truth(E.eval(cond, fr))))
+            d = bool_lit(sel)
+            if d is False:
+                continue
+            if d is True:
+                out.append((True, E.eval(e.elt, fr)))
+                continue
+            # undecided filter: keep the selector symbolic instead of forking 2^n paths
+            symbolic = True
+            pc_saved = list(E.pc), set(E._pc_ids), E.no_fork
+            E.fact(sel)
+            E.no_fork = True
+            try:
+                v = E.eval(e.elt, fr)
+            finally:
+                E.pc, E._pc_ids, E.no_fork = pc_saved
+            out.append((sel, v))
         _restore(fr, saved)
-        return E.new_list(seq_items('list', out))
+        if not symbolic:
+            return E.new_list(seq_items('list', [v for _, v in out]))
+        return E.new_list(filtered_seq(out))
     # symbolic length: pure map; a filter is accepted only if it is valid at a generic index
     k = E.fresh_int('ci')
     pc_saved = list(E.pc), set(E._pc_ids)
@@ -722,6 +740,25 @@ def list_comp(E, e, fr, lazy=False):
         finally:
             _restore(fr, sv)
     return E.new_list(VSeq('list', sq.n, at))
+
+
+def filtered_seq(cands):
+    """list of the selected candidates, in order: cands = [(selector Bool | True, value)]"""
+    sels = [z3.BoolVal(True) if s is True else s for s, _ in cands]
+    ranks = []
+    acc = z3.IntVal(0)
+    for sl in sels:
+        ranks.append(acc)
+        acc = z3.simplify(acc + z3.If(sl, 1, 0))
+    n = acc
+    vals = [v for _, v in cands]
+
+    def at(j, sels=sels, ranks=ranks, vals=vals):
+        r = vals[-1]
+        for k in range(len(vals) - 2, -1, -1):
+            r = merge_values(z3.And(sels[k], ranks[k] == I(j)), vals[k], r)
+        return r
+    return VSeq('list', n, at)
 
 
 def _restore(fr, saved):
